@@ -84,6 +84,7 @@ var transGroups = map[string]bool{}
 // FieldContracts: "pkg.Struct.field" (or "pkg.Struct.field[]" for map-of-functions fields) -> contract key
 var fieldContracts = map[string]string{}
 
+var reStrLit = regexp.MustCompile(`"(?:[^"\\\n]|\\.)*"`)
 var reFuncHdr = regexp.MustCompile(`^func\s+(?:\(\s*\w*\s*(\*?)\s*(\w+)\s*\)\s*)?([\w$]+)\s*$`)
 var reLabel = regexp.MustCompile(`^\[([^\]]+)\]\s*(.*)$`)
 
@@ -635,7 +636,7 @@ func genClauseFiles(w *World, contracts map[string]*Contract) (map[string][]byte
 					if im.Name != nil {
 						name = im.Name.Name
 					}
-					if regexp.MustCompile(`\b` + regexp.QuoteMeta(name) + `\.`).MatchString(body.String()) {
+					if regexp.MustCompile(`\b` + regexp.QuoteMeta(name) + `\.`).MatchString(reStrLit.ReplaceAllString(body.String(), `""`)) {
 						imports[path] = name
 					}
 				}
